@@ -103,13 +103,16 @@ def instantiate_branch_sees_through(fn: ast.FunctionDef, subj: str) -> bool:
             body = node.body
         if body is None:
             continue
+        # locals of the branch that hold the expansion: `expanded = subj.simplify()`
+        holders = {st.targets[0].id for st in body if isinstance(st, ast.Assign) and len(st.targets) == 1
+                   and isinstance(st.targets[0], ast.Name) and st.targets[0].id != subj and simp_of_subj(st.value)}
         for st in body:
             for x in ast.walk(st):
                 if not isinstance(x, ast.Call):
                     continue
                 # re-entry: f(.., subj.simplify(), ..) where f is this function (by name, cls.f, Class.f, self.f)
                 callee = x.func.attr if isinstance(x.func, ast.Attribute) else (x.func.id if isinstance(x.func, ast.Name) else None)
-                if callee == fn.name and any(simp_of_subj(a) for a in x.args):
+                if callee == fn.name and any(simp_of_subj(a) or (isinstance(a, ast.Name) and a.id in holders) for a in x.args):
                     return True
                 # dynamic re-dispatch: subj.simplify().<method>(..)
                 if isinstance(x.func, ast.Attribute) and simp_of_subj(x.func.value):
